@@ -216,7 +216,8 @@ def sheet(draw, knobs=None, max_rules=7):
     roots = []
     if var_defs or draw(st.integers(0, 3)) == 0:
         defs = [f"{n}: {v}" for n, v in var_defs]
-        extra = draw(st.lists(st.sampled_from(["--gap: 4px", "--font: \"Fira Code\", monospace", "--unused: #123456", "font-size: 16px", "--empty:"]), max_size=2, unique=True))
+        extra = draw(st.lists(st.sampled_from(["--gap: 4px", "--font: \"Fira Code\", monospace", "--unused: #123456", "font-size: 16px", "--empty:",
+                                                 "--page-bg: #fdfdfd", "--page-bg: #0b0b0b", "--page-bg: rgb(240, 230, 140)", "--surface: #eeeeee"]), max_size=2, unique=True))
         defs = list(draw(st.permutations(defs + extra)))
         split = draw(st.integers(0, len(defs)))
         groups = [g for g in (defs[:split], defs[split:]) if g]
@@ -276,5 +277,7 @@ def cli_settings(draw):
         s["default_bg"] = f"#{c[0]:02x}{c[1]:02x}{c[2]:02x}"
     if draw(st.integers(0, 11)) == 0:
         # the option is resolved like a declaration value, so it may reference a custom property of the file
-        s["default_bg"] = draw(st.sampled_from(["var(--bg, #ffffff)", "var(--bg, #101010)", "var(--xb, #fafafa)", "var(--page-bg, white)", "var(--text, #fff)"]))
+        # (names no rule uses for its text colour: a property that is rewritten for an adjusted rule AND feeds the default
+        #  background is the shared-property situation of known finding F6)
+        s["default_bg"] = draw(st.sampled_from(["var(--page-bg, #ffffff)", "var(--page-bg, #101010)", "var(--xb, #fafafa)", "var(--page-bg, white)", "var(--surface, #fff)", "var(--page-bg)"]))
     return s
